@@ -5,16 +5,16 @@
    Unbounded in: nesting depth, number of keywords per match, sizes of collections, domain and world contents. *)
 From Coq Require Import List ZArith Bool Arith.
 From Krrood Require Import Base.Sx Eql.Syntax Eql.MatchSpec Eql.MatchSpecShow Gen.Match Eql.Match Eql.MatchFrag
-  Eql.MatchProofs Eql.MatchWitness.
+  Eql.MatchProofs Eql.MatchFlag Eql.MatchWitness.
 Import ListNotations.
 
 (* an(entity_matching(T, dom)(keywords)).evaluate() returns exactly the elements of dom of type T that satisfy the
    pattern -- as a set of identities: two distinct elements are two answers whatever their attribute values.
    F11 (decidable, Eql/MatchFrag.v): keywords well typed against the class model and distinct, nested types comparable
-   with the declared attribute type, no empty value list under match_any / match_all, every nested match on a
-   collection emits a condition and its first one is not an exists(...). *)
+   with the declared attribute type, every nested match on a collection emits a condition.  Empty value lists under
+   match_any / match_all and match_any as the first keyword of a nested match are inside F11. *)
 Theorem C11_match : forall C objcls M T l dom,
-  sub_trans C -> typed C objcls M -> NoDup dom -> F11 C objcls T l = true ->
+  sub_trans C -> typed C objcls M -> F11 C objcls T l = true ->
   forall o, In o (run C M T l dom) <-> In o (spec_run (sub C) M T l dom).
 Proof. exact match_run_exact. Qed.
 
@@ -30,25 +30,35 @@ Proof. exact match_sat. Qed.
 Theorem C11_and_chain : forall C M D cs, true_envs C M D cs = eval_all C M D cs [].
 Proof. exact true_envs_seq. Qed.
 
+(* the flag the harness computes on a concrete case implies every hypothesis of C11_match: each case counted as
+   "inside F11" is an instance of the theorem *)
+Theorem C11_fragment_flag : forall c : mcase, in_F c = true ->
+  forall o, In o (run (case_cmodel c) (case_world c) (c_T c) (c_pat c) (c_dom c)) <->
+            In o (spec_run (sub (case_cmodel c)) (case_world c) (c_T c) (c_pat c) (c_dom c)).
+Proof. exact fragment_flag. Qed.
+
 (* ---- outside F11 the statement is false of the faithful model (and of the implementation: known findings) ---- *)
-(* C11-b: match_all([]) / match_any([]) contribute no condition *)
-Theorem C11_refuted_empty_list :
-  in_F w_kf_emptylist = false /\ differs w_kf_emptylist = true /\
-  in_F w_kf_emptylist_any = false /\ differs w_kf_emptylist_any = true.
-Proof. exact refuted_empty_list. Qed.
-(* C11-c: match_any as the first condition under a flattened collection keeps one witness per root element *)
-Theorem C11_refuted_exists_first : in_F w_kf_existsfirst = false /\ differs w_kf_existsfirst = true.
-Proof. exact refuted_exists_first. Qed.
 (* C11-d: a nested type unrelated to the declared attribute type is not checked *)
 Theorem C11_refuted_unrelated_type : in_F w_kf_unrelated = false /\ differs w_kf_unrelated = true.
 Proof. exact refuted_unrelated_type. Qed.
 (* C11-e: a nested match on a collection that emits no condition does not require a member *)
 Theorem C11_refuted_empty_nested : in_F w_kf_emptynested = false /\ differs w_kf_emptynested = true.
 Proof. exact refuted_empty_nested. Qed.
-(* C11-a (repaired by ded4892): value-equal collections no longer collapse *)
+
+(* ---- repaired defects: the former witnesses are inside F11 and answered as the Spec says ---- *)
+(* C11-a (ded4892): value-equal collections no longer collapse *)
 Theorem C11_fixed_any_dedup :
   in_F w_fixed_any_dedup = true /\ model_out w_fixed_any_dedup = SL [SZ 4; SZ 5] /\ spec_out w_fixed_any_dedup = SL [SZ 4; SZ 5].
 Proof. exact fixed_any_dedup. Qed.
+(* C11-b (663e923): match_all([]) / match_any([]) constrain the attribute *)
+Theorem C11_fixed_empty_list :
+  in_F w_fixed_emptylist = true /\ model_out w_fixed_emptylist = SL [SZ 5] /\ spec_out w_fixed_emptylist = SL [SZ 5] /\
+  in_F w_fixed_emptylist_any = true /\ model_out w_fixed_emptylist_any = SL [] /\ spec_out w_fixed_emptylist_any = SL [].
+Proof. exact fixed_empty_list. Qed.
+(* C11-c (38657f3): match_any as the first keyword under a flattened collection *)
+Theorem C11_fixed_exists_first :
+  in_F w_fixed_existsfirst = true /\ model_out w_fixed_existsfirst = SL [SZ 6] /\ spec_out w_fixed_existsfirst = SL [SZ 6].
+Proof. exact fixed_exists_first. Qed.
 
 (* non-vacuity: a depth-3 pattern inside F11 (type narrowing through a collection, match_any after a binding
    condition, a second keyword at the root) whose answer is one of three racks *)
@@ -58,8 +68,9 @@ Proof. exact nonvacuous. Qed.
 Print Assumptions C11_match.
 Print Assumptions C11_match_sat.
 Print Assumptions C11_and_chain.
-Print Assumptions C11_refuted_empty_list.
-Print Assumptions C11_refuted_exists_first.
+Print Assumptions C11_fragment_flag.
 Print Assumptions C11_refuted_unrelated_type.
 Print Assumptions C11_refuted_empty_nested.
 Print Assumptions C11_fixed_any_dedup.
+Print Assumptions C11_fixed_empty_list.
+Print Assumptions C11_fixed_exists_first.
